@@ -171,12 +171,15 @@ func rewindCase(c *mon.Ctx, idx int64, s *gen.Stream, m *gen.Model, cfg DemuxCfg
 	// drain and compare with the fresh run
 	call = 0
 	var got []Item
-	for j := 0; j < fresh.Calls+5; j++ {
+	for j := 0; j < fresh.Calls+40; j++ {
 		it, ok := step()
 		if !ok {
 			return
 		}
 		if errors.Is(it.Err, astits.ErrNoMorePackets) {
+			if cfg.API == "alt" && it.Data == nil && (call-1)%2 == 1 {
+				continue // NextPacket runs dry before NextData has flushed (same convention as RunDemux)
+			}
 			break
 		}
 		got = append(got, it)
